@@ -21,11 +21,11 @@ RULE = ("typed Sids built by natural typing from per-key value sets of every con
         "set is shared with another type, or has a free value outside [a-z0-9]; distinct = distinct (uri) of the first Sid")
 ASSUMPTIONS = [
     "domain = strings whose natural (first-match) type exists according to the reference model",
-    "query round trip only for non-empty values without whitespace or any of % + & = # ; ? ~ (the property's own restriction; '~' is query syntax)",
+    "query round trip only for non-empty values without whitespace or any of % + & = # ; ? and not starting with '~' (the property's own restriction; a leading '~' is query syntax)",
     "eval(repr(sid)) is evaluated in a namespace that contains only Sid",
 ]
 
-QUERY_UNSAFE = set("%+&=#;?~ \t\n\r\x0b\x0c\x00")
+QUERY_UNSAFE = set("%+&=#;? \t\n\r\x0b\x0c\x00")   # a LEADING '~' is query syntax (optional value), see below
 
 
 def _model():
@@ -143,7 +143,7 @@ def check_one(m, out: Outcome, text: str, perm: float, first: bool):
         ok, r = call(lambda: Sid(fields=_shuffled(fields, perm)))
         same("fields", r) if ok else out.add(f"C02/fields/raises/{exc_sig(r)}", f"Sid(fields={_shuffled(fields, perm)}) raised {r!r}")
         vals = list(fields.values())
-        if all(v and not (set(v) & QUERY_UNSAFE) for v in vals):
+        if all(v and not (set(v) & QUERY_UNSAFE) and not v.startswith("~") for v in vals):
             out.label("query-roundtrip")
             ok, q = call(sid.as_query)
             if not ok:
